@@ -250,7 +250,7 @@ pub trait BRemapper: ARemapper {
 		} else {
 			MethodNameAndDesc {
 				name: method_ref.name.clone(),
-				desc: method_ref.desc.clone(), // an array's class method can only contain descriptors with names from the JDK
+				desc: self.map_method_desc(&method_ref.desc)?, // the methods of an array class keep their names
 			}
 		};
 		let class_name = self.map_class_any(&method_ref.class)?;
